@@ -32,15 +32,21 @@ ASSUMPTIONS = [
     "domain and service are dot-free strings (Home Assistant slugs), so the table key f'{domain}.{service}' is "
     "injective; checked where pyscript itself splits a name (count('.') == 1)",
     "registration and removal are synchronous (no await inside service_register/service_remove), hence atomic",
+    "native scenarios only: Home Assistant's service-description loader (homeassistant.helpers.service.async_get_all_descriptions, "
+    "called by State.get_service_params) is stubbed as 'no service has a description' (it needs a real HomeAssistant object)",
+    "the caller's handling of a failing trigger_init (AstEval.ast_functiondef: log, then trigger_stop) is not under contract; the "
+    "legacy refusal harness performs that call itself, and the bounded random life cycles exercise the real caller",
 ]
 NOT_DECIDED = ["'calls the most recent definition': which handler HA invokes is HA's map semantics (assumed); "
                "the check proves the handler registered last is the one stored"]
-SHAPE_BOUNDS = {"legacy @service names per decorator": "<= 2 (all coincidence patterns)"}
+SHAPE_BOUNDS = {"@service names per decorator": "<= 2 (all coincidence patterns; with two names, the last one free / owned by this context / owned by another context)"}
 LEVEL_TEXT = ("Proof, unbounded in table contents: service_register / service_remove are verified against their "
               "contracts for all tables, names and contexts, and I_svc (registered <=> count >= 1 <=> owned) is "
               "inductive; the pairing lemma (registrations made == registrations that will be removed) is checked on "
               "the real trigger_init / trigger_stop and ServiceDecorator.start / stop, shape-bounded on the number of "
-              "names in one legacy decorator (<= 2).")
+              "names in one decorator (<= 2), including the refusal of a name owned by another context (nothing registered, "
+              "no callback replaced, tables as before). Whole life cycles through the interpreter (definition, refusal, call, "
+              "unload; both subsystems) only by a labelled bounded random stand-in against an ownership model.")
 
 
 def count(S, k):
@@ -498,6 +504,10 @@ def harnesses():
     # DecoratorManager.start/stop).  Deleting / redefining a name is NOT generated: when the old function's services go away then
     # depends on when CPython finalises the function object (property C09's not-decided clause).
     hs.append(Harness("bounded.random-life-cycles", bounded_random(0, 60), units=_B_UNITS, kind="bounded"))
+    # the fixed history behind the recorded finding C12-call-reaches-removed-definition (so that it is reported on every run,
+    # not only when the random sequences happen to contain it)
+    hs.append(Harness("bounded.removed-definition", lambda seed: __import__("replay.native", fromlist=["run_native"]).run_native("c12_removed_definition_still_called", {}),
+                      units=[(F_PY, "Function.service_register"), (F_PY, "Function.service_remove")], kind="bounded"))
     for k in range(1, 4):
         hs.append(Harness(f"bounded.random-life-cycles[thorough {k}/3]", bounded_random(10 * k, 150), units=_B_UNITS, kind="bounded", tier="thorough"))
     return hs + harnesses_outgoing()
